@@ -415,7 +415,7 @@ func checkAfterFlag(r *Run, rc *RuleCtx, fn *ssa.Function, acc *ssa.Phi) {
 	// flag starts false
 	for i, e := range flag.Edges {
 		pred := flag.Block().Preds[i]
-		if !flag.Block().Dominates(pred) {
+		if !blockDominates(flag.Block(), pred) {
 			if c, ok := e.(*ssa.Const); !ok || c.Value == nil || c.Value.String() != "false" {
 				rc.Violation(fn, instrPos(flag), "flag initial value", "the after-MAC flag must start false")
 			}
@@ -444,13 +444,13 @@ func checkAfterFlag(r *Run, rc *RuleCtx, fn *ssa.Function, acc *ssa.Phi) {
 			continue
 		}
 		pred := acc.Block().Preds[i]
-		if !acc.Block().Dominates(pred) {
+		if !blockDominates(acc.Block(), pred) {
 			continue
 		}
 		// e is a phi merging accumulate / not: check the incrementing definition's block
 		checkIncUnder(rc, fn, e, acc, fi, 0)
 	}
-	if !fi.If.Block().Dominates(typeIfs[0].If.Block()) {
+	if !blockDominates(fi.If.Block(), typeIfs[0].If.Block()) {
 		rc.Violation(fn, instrPos(typeIfs[0].If), "type test before flag test", "the MESSAGE-INTEGRITY attribute itself is counted as trailing (the covered span ends 24 bytes early)")
 	}
 	// flag becomes true exactly on the match edge
@@ -470,7 +470,7 @@ func checkAfterFlag(r *Run, rc *RuleCtx, fn *ssa.Function, acc *ssa.Phi) {
 			for i, e := range ph.Edges {
 				if c, ok := e.(*ssa.Const); ok && c.Value != nil && c.Value.String() == "true" {
 					pred := ph.Block().Preds[i]
-					if eq == pred || eq.Dominates(pred) {
+					if eq == pred || blockDominates(eq, pred) {
 						setOK = true
 					}
 				} else if e != ssa.Value(flag) {
@@ -505,7 +505,7 @@ func checkIncUnder(rc *RuleCtx, fn *ssa.Function, v ssa.Value, acc *ssa.Phi, fi 
 		}
 	case *ssa.BinOp:
 		if x.Op == token.ADD && leadsTo(x, acc, 0) {
-			if !(fi.OnTrue.Dominates(x.Block()) && len(fi.OnTrue.Preds) == 1) {
+			if !(blockDominates(fi.OnTrue, x.Block()) && len(fi.OnTrue.Preds) == 1) {
 				rc.Violation(fn, instrPos(x), "accumulation outside the after-MAC branch", "attributes before the MAC reduce the covered length")
 			}
 			checkIncUnder(rc, fn, x.X, acc, fi, depth+1)
@@ -890,7 +890,7 @@ func runC05(r *Run) {
 		for _, ret := range returnsOf(check) {
 			v := deref(ret.Results[0])
 			if c, ok := v.(*ssa.Call); ok && chk != nil && callsFn(c, chk) && got != nil && fvc != nil {
-				a0, a1 := c.Call.Args[0], c.Call.Args[1]
+				a0, a1 := canonPhi(c.Call.Args[0]), canonPhi(c.Call.Args[1])
 				if (a0 == got && a1 == ssa.Value(fvc)) || (a1 == got && a0 == ssa.Value(fvc)) {
 					okRet = true
 				}
